@@ -90,8 +90,7 @@ Proof.
   { eapply RO_bind; [apply RO_body_if|intros ps _].
     eapply RO_bind; [apply RO_refuse|intros st' H]. apply RO_ret. exact H. }
   eapply RO_bind with (Q := fun _ => True).
-  { destruct (match find (fun d => str_eqb (d_dest d) ftp) (rev (deferred_writes st)) with
-              | Some d => if d_newname d && exists_ m ftp then None else Some (d_data d) | None => None end).
+  { destruct (pending_content st m ftp outf).
     - apply RO_ret; exact I.
     - eapply RO_bind; [apply RO_open_read|intros r _].
       destruct r as [e|].
